@@ -165,11 +165,17 @@ ArenaFree(void *p)
   memset(p, 0xDD, b->size);
 }
 
+bool AllocPointsEnabled();
+
 void *
 AllocImpl(size_t size, size_t align)
 {
   if (tl_engine == 0 && g_arena_ready) {
-    if (tl_tid >= 0) return ArenaAlloc(tl_tid + 1, size, align);
+    if (tl_tid >= 0) {
+      void *p = ArenaAlloc(tl_tid + 1, size, align);
+      if (AllocPointsEnabled()) plain_access(p, true);  // allocation is a visible step
+      return p;
+    }
     if (g_controller_scope) return ArenaAlloc(0, size, align);
   }
   void *p = nullptr;
@@ -190,6 +196,7 @@ FreeImpl(void *p)
 {
   if (!p) return;
   if (ArenaIndexOf(p) >= 0) {
+    if (tl_tid >= 0 && tl_engine == 0 && AllocPointsEnabled()) plain_access(p, true);  // so is deallocation
     ArenaFree(p);
   } else {
     free(p);
@@ -851,6 +858,15 @@ RunOnce(const std::vector<uint8_t> &prefix)
 
 }  // namespace
 
+namespace
+{
+bool
+AllocPointsEnabled()
+{
+  return G.scn != nullptr && G.scn->alloc_points && tl_quiet == 0;
+}
+}  // namespace
+
 /*==============================================================================================
  * hooks
  *============================================================================================*/
@@ -1108,6 +1124,15 @@ void
 HbMark(int tid, int bit)
 {
   G.th[tid].K |= (1ULL << bit);
+}
+
+void
+plain_access(const void *addr, bool write)
+{
+  if (tl_tid < 0 || tl_engine > 0 || tl_quiet > 0) return;
+  Op op{write ? K_PLAIN_W : K_PLAIN_R, 8, 0, 0, addr, nullptr, 0, false};
+  pre(op);
+  post(op, Peek(addr, 8), 0, false);
 }
 
 void
